@@ -386,6 +386,7 @@ class Run:
         self.async_open = set()
         self.not_run = 0
         self.responsive = None
+        self.leak = []
         self.final_queue = None
         self.queue_consistent = None
         self.log1 = None
@@ -416,12 +417,39 @@ class Run:
             if r[0] == 'bool':
                 return True
             if r[0] == 'num':
-                return {'i0': 0, 'f0': 0.0, 'nf0': -0.0, 'false': False, 'true': True, 'inf': float('inf'),
+                return {'i0': 0, 'f0': 0.0, 'nf0': -0.0, 'false': False, 'true': True, 'inf': float('inf'), 'nan': float('nan'),
                         'i1': 1, 'empty': '', 'list': []}[r[1]]
             if r[0] == 'base_exc':
                 raise KeyboardInterrupt
             return None
-        if spec.get('routine') is not None:
+        if spec.get('rscript') is not None:
+            # a Routine whose body is a script: ['yield', n, d] | ['self_next'] | ['next', tid] (resume another routine
+            # object from inside this one) | ['raise'] | ['stop'] ; a wake-up is recorded at the start of every segment
+            script = spec['rscript']
+            box = {}
+
+            def rec():
+                run.count[tid] = run.count.get(tid, 0) + 1
+                run.awakes.append([tid, real_now(), fr(main.current_tt._seconds),
+                                   THREAD_CID.get(threading.get_ident()), owned()])
+
+            def gen():
+                rec()
+                for a in script:
+                    if a[0] == 'yield':
+                        yield float(Fraction(a[1], a[2]))
+                        rec()
+                    elif a[0] == 'self_next':
+                        box['t'].next()
+                    elif a[0] == 'next':
+                        run.tasks[a[1]].next()
+                    elif a[0] == 'raise':
+                        raise RuntimeError('routine %d raises' % tid)
+                    elif a[0] == 'stop':
+                        raise stm.StopStream
+            t = stm.Routine(gen)
+            box['t'] = t
+        elif spec.get('routine') is not None:
             # a real Routine: yields `routine` numeric deltas, then ENDS (its last awake raises StopStream)
             ny, dl = spec['routine'], float(Fraction(*spec.get('yield', [1, 64])))
             slow = spec.get('slow', 0) / 1000.0
@@ -473,7 +501,7 @@ class Run:
                 c.stop()
             elif k == 'sched_x':
                 # explicit edge values for the delay: 'i0' 'f0' 'nf0' 'none' 'inf'
-                val = {'i0': 0, 'f0': 0.0, 'nf0': -0.0, 'none': None, 'inf': float('inf'), 'false': False}[op[2]]
+                val = {'i0': 0, 'f0': 0.0, 'nf0': -0.0, 'none': None, 'inf': float('inf'), 'nan': float('nan'), 'false': False}[op[2]]
                 t0 = real_now()
                 try:
                     c.sched(val, self.tasks[op[1]])
@@ -731,6 +759,13 @@ class Run:
                 self.responsive = False
                 self.errors.append('probe: %r' % (e,))
             time.sleep(0.01)
+        # global state a failing task may leak: the time-thread stack and the awake flag
+        with main._main_lock:
+            self.leak = []
+            if main.current_tt is not main.main_tt:
+                self.leak.append('main.current_tt is %r (not the main time thread)' % (main.current_tt,))
+            if main._in_awake_call:
+                self.leak.append('main._in_awake_call is still set')
         # snapshot of the real queue, with the log up to here (two-site check: model queue vs real queue)
         self.snapshot(cid, kind)
         if kind == 'tempo' and final != 'stop':
@@ -751,7 +786,7 @@ class Run:
                 'awakes': self.awakes, 'scheds': self.scheds, 'errors': self.errors,
                 'alive': alive, 'window': window, 'problems': list(PROBLEMS),
                 'final_done_at': self.final_done_at, 'async_not_run': self.not_run,
-                'responsive': self.responsive, 'final_queue': self.final_queue,
+                'responsive': self.responsive, 'final_queue': self.final_queue, 'leak': self.leak,
                 'n_log1': len([e for e in self.log1 if e[0] == cid]), 'queue_consistent': self.queue_consistent}
 
     def client(self, i, ops):
